@@ -1237,6 +1237,21 @@ func (env *Env) havocTarget(st *State, x Expr) error {
 			return nil
 		}
 	case *ECall:
+		if id, ok := x.Fun.(*EIdent); ok && id.Name == "fieldof" && len(x.Args) == 2 {
+			tl, ok1 := x.Args[0].(*ETypeLit)
+			fn, ok2 := x.Args[1].(*EIdent)
+			if ok1 && ok2 {
+				keys, err := e.fieldKeys(tl.T, fn.Name, env.pkgPath, env.imports)
+				if err != nil {
+					return err
+				}
+				for _, k := range keys {
+					e.heapGet(st, k[0], k[1])
+					e.heapHavoc(st, k[0])
+				}
+				return nil
+			}
+		}
 		if id, ok := x.Fun.(*EIdent); ok && len(x.Args) == 1 {
 			switch id.Name {
 			case "elems":
@@ -1367,7 +1382,14 @@ func (e *Enc) bytesOf(st *State, v *Val) (*Val, error) {
 	e.declSort("Bytes")
 	f := e.declFun("bseq", []string{"(Array Int Int)", "Int", "Int"}, "Bytes")
 	h := e.heapGet(st, "S|"+typeStr(sl.Elem())+"|", "(Array Int (Array Int Int))")
-	return &Val{L: []Sc{{"(" + f + " (select " + h + " " + v.L[0].T + ") " + v.L[1].T + " " + v.L[2].T + ")", "Bytes"}}}, nil
+	t := "(" + f + " (select " + h + " " + v.L[0].T + ") " + v.L[1].T + " " + v.L[2].T + ")"
+	// the abstract byte string knows its length: blen(bytes(b)) == len(b)
+	if g, ok := e.DB.Ghosts["blen"]; ok {
+		if name, _, err := e.ghostSymbol(g); err == nil {
+			e.assert("(= (" + name + " " + t + ") " + v.L[2].T + ")")
+		}
+	}
+	return &Val{L: []Sc{{t, "Bytes"}}}, nil
 }
 
 // contentOf: abstract content of a slice value (any element type) in state st.
@@ -1487,6 +1509,32 @@ func selectPatterns(body string, vars []string) []string {
 	}
 	if len(out) > 6 {
 		return nil
+	}
+	if len(out) == 0 && len(vars) > 1 {
+		// no single term mentions every bound variable: one multi-pattern made of an innermost select term per variable
+		var multi []string
+		for _, v := range vars {
+			c := selectPatterns(body, []string{v})
+			// prefer a term that mentions no other bound variable
+			pick := ""
+			for _, t := range c {
+				clean := true
+				for _, w := range vars {
+					if w != v && strings.Contains(t, w) {
+						clean = false
+					}
+				}
+				if clean {
+					pick = t
+					break
+				}
+			}
+			if pick == "" {
+				return nil
+			}
+			multi = append(multi, pick)
+		}
+		return []string{strings.Join(multi, " ")}
 	}
 	return out
 }
